@@ -47,7 +47,8 @@ Qed.
 Theorem arrival_claimed_by_first_rw_select i tr st b m s nm ch b' m' :
   full st -> no_rw_select i st tr ->
   lookup i (boxes st) = Some b -> In m (b_msgs b) -> m_recent m = true ->
-  find_box (run st tr) nm = Some (i, b') -> In m' (b_msgs b') -> m_uid m' = m_uid m ->
+  find_box (run st tr) nm = Some (i, b') -> box_ro (run st tr) i = false ->
+  In m' (b_msgs b') -> m_uid m' = m_uid m ->
   let st2 := fst (step (run st tr) (Select s nm false) ch) in
   exists sl' b2,
     snd (step (run st tr) (Select s nm false) ch)
@@ -57,11 +58,11 @@ Theorem arrival_claimed_by_first_rw_select i tr st b m s nm ch b' m' :
     (0 < nlen (stored_recent b')) /\
     lookup i (boxes st2) = Some b2 /\ forall x, In x (b_msgs b2) -> m_recent x = false.
 Proof.
-  intros F Hno Hl Hm Hr Hf Hm' Eu st2.
+  intros F Hno Hl Hm Hr Hf Hnro Hm' Eu st2.
   destruct (stored_recent_survives_run i tr st b m F Hno Hl Hm Hr) as (bx & Hbx & Hkeep).
   pose proof (find_box_lookup _ _ _ _ Hf) as Hb'. rewrite Hb' in Hbx. inversion Hbx; subst bx.
   pose proof (Hkeep _ Hm' Eu) as Hr'.
-  destruct (first_rw_select_claims (run st tr) s nm ch i b' Hf)
+  destruct (first_rw_select_claims (run st tr) s nm ch i b' Hf Hnro)
     as (sl' & b2 & Ho & Hs & Hbid & Hro & Hv & Hrec & _ & Hb2 & _ & Hclr).
   assert (Hin : In (m_uid m) (stored_recent b')).
   { unfold stored_recent. rewrite <- Eu. apply in_map. apply filter_In. split; assumption. }
